@@ -129,6 +129,25 @@ def faults(res, ctx, rng):
                     res.count('faults_first_record_undecoded')
 
 
+def orphan_parts(res, ctx, rng):
+    """Parts of composites outside any window (a real-fault record without its page fault, an image record without a
+    launch, sample parts without a sampler): they decode on their own and leave nothing behind for later windows -
+    the sequential-composition monitors place them between the windows."""
+    makers = [lambda: H.real_fault(rng.choice(KINDS), rng.getrandbits(40), rng.randrange(256), rng.randrange(1, 12), 4242),
+              lambda: H.uuid_record(rng.choice(('DYLD_uuid_map_a', 'DYLD_uuid_shared_cache_a')), rng.randbytes(16), rng.getrandbits(40)),
+              lambda: H.thd_data(4242, 8, 0, rng.randrange(128)),
+              lambda: H.stk_uhdr(rng.randrange(512), 3), lambda: H.stk_udata([7, 8, 9])]
+    for _ in range(ctx.pick(60, 600)):
+        seq = [rng.choice(makers)() for _ in range(rng.choice((1, 1, 2)))]
+        try:
+            events, traces = feed(seq)
+        except Exception as x:
+            res.violation(f'c20-orphan-part-raises-{core.exc_name(x)}', f'{x!r}', {'events': [[c, q, list(p) if not isinstance(p, bytes) else p] for c, q, p in seq]})
+            continue
+        res.count('orphan_part_sequences')
+        STREAM_CASES.append((seq, [str(x) for x in traces], f'parts outside any window: {[a[0] for a in seq]}'))
+
+
 def launches(res, ctx, rng):
     for i in range(ctx.pick(200, 40000)):
         n = rng.randrange(0, 9)
@@ -328,8 +347,8 @@ def run(ctx):
     launches(res, ctx, rng)
     launch_streams(res, ctx, rng)
     samplers(res, ctx, rng)
-    stream.run_stream(res, 'c20', STREAM_CASES, rng, 'composite windows')
-    stream.run_files(res, 'c20', STREAM_CASES, rng, 'composite windows')
+    orphan_parts(res, ctx, rng)
+    stream.run_all(res, 'c20', STREAM_CASES, rng, 'composite windows', ctx)
     recheck_retained(res)
     if ctx.shard == 0:
         seq = H.page_fault(0x1000, 0, 0, 2, [H.real_fault('purgeable', 1, 3, 2, 44), H.real_fault('internal', 2, 1, 4, 45)])
